@@ -11,8 +11,8 @@ EXPLANATION = ('Differential check of the real session against a reference model
                'over the same symbolic market; floor/round are shared uninterpreted functions so equal arguments give equal integers; '
                'z3 proves fills, cash, holdings and daily equity equal on every path of every configuration.')
 ASSUMPTIONS = [
-    'exact real arithmetic; market symbolic in (1,1000); weights, buffer/leverage, fee rates, initial cash and calendar concrete per configuration',
-    'portfolio equity at each sizing instant is positive (follows from the price range and initial cash in these configurations)',
+    'exact real arithmetic; market symbolic in (1,1000) and initial cash symbolic in [1e5,1e7]; weights, buffer/leverage, fee rates and calendar concrete per configuration (arithmetic among these constants is evaluated in doubles, as any implementation does)',
+    'every obligation is conditioned on the reference portfolio equity being positive at every sizing instant (the sizing rules presuppose it, as in C10/C11); markets that drive equity to zero or below are outside the claim',
     'reference model: vf/props/reference.py (trusted as the reading of the statement)',
 ]
 DEADLINE = {'quick': 1500, 'thorough': 3400}
